@@ -14,4 +14,5 @@ CONSTANTS
   DrainMode = "raw"
   Strict = TRUE
   WithServe = FALSE
+  Hist = FALSE
 PROPERTIES C18_Terminates
